@@ -470,6 +470,10 @@ func genC05(g *G, sc *Scenario, tier string) {
 				if g.P(sc0(sc, "pCoreInTxn", 0.008)) {
 					parts = append(parts, Part{DS: "core.Dataset", Ents: []Ent{{"id": MkE + "x", "props": map[string]any{MkS + "w": mark}, "refs": map[string]any{}}}})
 				}
+				if g.P(0.06) {
+					// a transform lists every dataset it may write to, core.Dataset among them, and has nothing for it this time
+					parts = append(parts, Part{DS: "core.Dataset"})
+				}
 				ops = append(ops, Op{K: "txn", Parts: parts})
 			} else {
 				ds := g.Pick(c.Datasets)
@@ -997,7 +1001,23 @@ func genC12c(g *G, sc *Scenario, tier string) {
 			}
 		}
 	}
-	sc.Tasks = append(sc.Tasks, []Op{{K: "compact", DS: "dsA", N: g.PickInt([]int{1, 1, 2, 3})}})
+	coreStory := g.P(0.2)
+	if coreStory {
+		// the catalogue is compacted (its entry for dsA ends in a legacy duplicate) while transactions that name
+		// core.Dataset without having anything for it add entities to dsA, which moves dsA's counter in the catalogue
+		sc.Ops = append(sc.Ops, Op{K: "dupCore", DS: "dsA"})
+		sc.Tasks = append(sc.Tasks, []Op{{K: "compact", DS: "core.Dataset", N: 1}})
+		var ops []Op
+		for i := g.Range(1, 2); i > 0; i-- {
+			e := Ent{"id": fmt.Sprintf("%scat%d", MkE, i), "props": map[string]any{MkS + "a0": float64(i)}, "refs": map[string]any{}}
+			m.Batch("dsA", []Ent{e})
+			ops = append(ops, Op{K: "txn", Parts: []Part{{DS: "dsA", Ents: []Ent{e}}, {DS: "core.Dataset"}}})
+		}
+		sc.Tasks = append(sc.Tasks, ops)
+		sc.Note = "catalogue compacted while transactions move a counter"
+	} else {
+		sc.Tasks = append(sc.Tasks, []Op{{K: "compact", DS: "dsA", N: g.PickInt([]int{1, 1, 2, 3})}})
+	}
 	heldHandle := 0
 	if g.P(0.2) {
 		// the dataset was renamed and given its name back; the writers resolved it before that (an upload keeps its
@@ -1007,6 +1027,9 @@ func genC12c(g *G, sc *Scenario, tier string) {
 		sc.Note = "writers hold a handle from before a rename"
 	}
 	nw := g.Range(1, 2)
+	if coreStory {
+		nw = 0 // (any other writer's new entity would move the counter first and bury the duplicate)
+	}
 	for w := 0; w < nw; w++ {
 		var ops []Op
 		for i := g.Range(1, 3); i > 0; i-- {
